@@ -10,28 +10,29 @@ import (
 )
 
 type CallSite struct {
-	Instr   ssa.CallInstruction
-	Fn      *ssa.Function // function containing the site (may be an inlined callee)
-	Depth   int
-	Callee  string // canonical callee name (see calleeName)
-	Reach   string
-	Args    []Val  // receiver first for methods / invokes
-	ArgVals []ssa.Value
-	Res     Val
-	Ord     int  // ordinal among the sites with the same callee in this execution
-	IsGo    bool
-	IsDefer bool
-	Inlined bool
-	Class   string // effect class, "" when none
+	Instr     ssa.CallInstruction
+	Fn        *ssa.Function // function containing the site (may be an inlined callee)
+	Depth     int
+	Callee    string // canonical callee name (see calleeName)
+	Reach     string
+	Args      []Val // receiver first for methods / invokes
+	ArgVals   []ssa.Value
+	Res       Val
+	Ord       int // ordinal among the sites with the same callee in this execution
+	IsGo      bool
+	IsDefer   bool
+	Inlined   bool
+	Class     string // effect class, "" when none
 	MemBefore string
 	StBefore  State
-	Pos     token.Pos
+	Pos       token.Pos
+	Mark      int // script position right after the call
 }
 
 type StoreSite struct {
-	Instr *ssa.Store
-	Fn    *ssa.Function
-	Reach string
+	Instr    *ssa.Store
+	Fn       *ssa.Function
+	Reach    string
 	Ref, Off string
 }
 
